@@ -315,6 +315,7 @@ def build(spec, plain=False):
     # "link_late": the links are declared only after every task has been registered in the workflow (successors registered before their predecessors)
     for i, j, kind in (spec.get("links", []) if not spec.get("link_late") else []):  # "extend" / "extend-gen" (extend_input_task_list with a list / a one-shot generator)
         mode = DEP[kind]
+        link_api = (spec.get("link_api_for") or {}).get(str(j), spec.get("link_api"))  # ("link_api_for": {successor index: api} - different successors declared in different ways)
         if link_api == "int":
             m.tasks[j].append_input_task(m.tasks[i], task_dependency_mode=int(mode))
         elif link_api == "extend":
